@@ -14,8 +14,8 @@ func FindVertexHasLabelStart(pipe []*gripql.GraphStatement) ([]string, []*gripql
 			break
 		}
 		if i == 0 {
-			if _, ok := step.GetStatement().(*gripql.GraphStatement_V); ok {
-				//lookupV = lv
+			if v, ok := step.GetStatement().(*gripql.GraphStatement_V); ok && len(protoutil.AsStringList(v.V)) == 0 {
+				// V(ids) is a lookup by id, not a label scan
 			} else {
 				break
 			}
@@ -25,6 +25,7 @@ func FindVertexHasLabelStart(pipe []*gripql.GraphStatement) ([]string, []*gripql
 		case *gripql.GraphStatement_HasLabel:
 			labels = protoutil.AsStringList(s.HasLabel)
 			hasLabelLen = i + 1
+			isDone = true // a further hasLabel narrows the result: it stays an ordinary filter
 		default:
 			isDone = true
 		}
@@ -41,7 +42,8 @@ func FindEdgeHasLabelStart(pipe []*gripql.GraphStatement) ([]string, []*gripql.G
 			break
 		}
 		if i == 0 {
-			if _, ok := step.GetStatement().(*gripql.GraphStatement_E); ok {
+			if e, ok := step.GetStatement().(*gripql.GraphStatement_E); ok && len(protoutil.AsStringList(e.E)) == 0 {
+				// E(ids) is a lookup by id, not a label scan
 			} else {
 				break
 			}
@@ -51,6 +53,7 @@ func FindEdgeHasLabelStart(pipe []*gripql.GraphStatement) ([]string, []*gripql.G
 		case *gripql.GraphStatement_HasLabel:
 			labels = protoutil.AsStringList(s.HasLabel)
 			hasLabelLen = i + 1
+			isDone = true // a further hasLabel narrows the result: it stays an ordinary filter
 		default:
 			isDone = true
 		}
